@@ -74,7 +74,9 @@ man = {
     "notes": "Family: static analysis only. Seven genuine defects were reported by the checks and repaired by unguarded `fix:` "
              "commits in /repo (see known_findings.json `fixed`); one known finding (compaction swap, C11/C05) is listed in "
              "known_findings.json and printed as KNOWN-FINDING. `selftest/run.py` (developer command) replays the mutation "
-             "catalogue; `seeded/` holds independently written breaking changes.",
+             "catalogue; `seeded/` holds independently written breaking changes, `benign/` behaviour-preserving refactorings. "
+             "A check prints `UNDECIDED property=<id> ...` (exit code unaffected) for an obligation a rule could not decide on a "
+             "modified tree (unmodelled idiom, lost anchor); see DESIGN.md 12.2h.",
     "not_applicable": [{"property_id": k, "reason": v} for k, v in sorted(spec.NOT_APPLICABLE.items())],
 }
 with open(os.path.join(os.path.dirname(os.path.abspath(__file__)), "MANIFEST.json"), "w") as fh:
